@@ -12,7 +12,7 @@ import (
 func init() {
 	register(&Spec{ID: "C14", Title: "Transport failure yields a clean prefix and then an error", Run: runC14,
 		Meta: core.Meta{
-			Explanation: "Decides that the error path from the transport to the consumer is unbroken and that only completely received packets are parsed. R14.1: every transport read (io.Reader.Read / io.ReadFull on the connection) in PacketHeader.ReadFrom and Packet.ReadFrom has its error tested at once and every failure return carries the read error (%w), the error itself or ErrEOFAfterZeroRead — never nil. R14.2: a nil-error return of Packet.ReadFrom is dominated by totalBytes == Header.Length, a nil-error return of PacketHeader.ReadFrom by the full-header read succeeding; every return of Packet.ReadFrom whose error may satisfy errors.Is(err, io.EOF) (which Conn.ReadFrom treats as an orderly end and still parses the packet) lies only on paths where the body is complete or the error is not EOF. R14.3: every CFG cycle that contains a transport read tests a context's Err() with an exit, and every way back to the loop head after a failed read passes a context Err() test (bounded partial-body wait). R14.4: in Conn.ReadFrom every path to WritePacket(packet) has err == nil or errors.Is(err, io.EOF); the complementary path sends an error wrapping err on Conn.errCh; the loop ends after an EOF. R14.5: NextPackage receives from Conn.errCh in its blocking select and returns a non-nil error wrapping the received value.",
+			Explanation: "Decides that the error path from the transport to the consumer is unbroken and that only completely received packets are parsed. R14.1: every transport read (io.Reader.Read / io.ReadFull on the connection) in PacketHeader.ReadFrom and Packet.ReadFrom has its error tested at once and every failure return carries the read error (%w), the error itself or ErrEOFAfterZeroRead — never nil. R14.2: a nil-error return of Packet.ReadFrom is dominated by totalBytes == Header.Length, a nil-error return of PacketHeader.ReadFrom by the full-header read succeeding; every return of Packet.ReadFrom whose error may satisfy errors.Is(err, io.EOF) (which Conn.ReadFrom treats as an orderly end and still parses the packet) lies only on paths where the body is complete or the error is not EOF. R14.3: every CFG cycle that contains a transport read tests a context's Err() with an exit, and every way back to the loop head after a failed read passes a context Err() test (bounded partial-body wait). R14.4: in Conn.ReadFrom every path to WritePacket(packet) has err == nil or errors.Is(err, io.EOF); the complementary path sends an error wrapping err on Conn.errCh; the loop ends after an EOF. R14.5: NextPackage receives from Conn.errCh in its blocking select and returns a non-nil error wrapping the received value. R14.6: in NextPackage every path to the blocking select (which offers the error queues) first passes the non-blocking receive from packageCh: packages parsed from completely received packets are delivered before the transport error that followed them. R14.7: every return of the reader goroutine is under `connection context done` or `errors.Is(err, io.EOF)`; a reader that gives up on other errors stops refilling Conn.errCh and only the first waiter learns that the transport died.",
 			NotDecided:  "Which prefix of packages is delivered, the spurious-DONE clause and elapsed time are not decided (crash points are not enumerated).",
 			Assumptions: []string{"io.ReadFull returns err == nil only when the buffer was filled (standard library contract)"},
 		}})
@@ -36,6 +36,8 @@ func runC14(r *core.Run) {
 	r.Rule("R14.3", "every loop around a transport read is bounded by a context/timeout test", 1, true)
 	r.Rule("R14.4", "Conn.ReadFrom parses a packet only if err == nil or EOF, reports every other error on Conn.errCh", 3, false)
 	r.Rule("R14.5", "NextPackage surfaces Conn.errCh errors", 1, false)
+	r.Rule("R14.6", "queued packages are delivered before a queued error (prefix, then error)", 1, false)
+	r.Rule("R14.7", "the reader goroutine only ends when the connection context is done or after an EOF", 2, false)
 
 	eofZero := p.Global("tds", "ErrEOFAfterZeroRead")
 	isEOFZero := func(v ssa.Value) bool {
@@ -69,6 +71,8 @@ func runC14(r *core.Run) {
 	c14Complete(r, "R14.2", isEOFZero)
 	c14Conn(r)
 	c14NextPackage(r)
+	c14Order(r)
+	c14ReaderExits(r)
 }
 
 func c14ReadSite(r *core.Run, fn *ssa.Function, c ssa.CallInstruction, e ssa.Value, key string, isEOFZero func(ssa.Value) bool) {
@@ -651,4 +655,92 @@ func selectBranchReturns(sel *ssa.Select, idx int) []*ssa.Return {
 		}
 	}
 	return out
+}
+
+// c14Order: in NextPackage every path to the blocking select (which offers
+// the error queues) passes the non-blocking receive from packageCh first, so
+// packages parsed from completely received packets are handed out before the
+// transport error that followed them.
+func c14Order(r *core.Run) {
+	p := r.Prog
+	fn := p.Func("tds", "Channel", "NextPackage")
+	fPkgCh := p.Field("tds", "Channel", "packageCh")
+	var fast, blocking *ssa.Select
+	for _, b := range fn.Blocks {
+		for _, in := range b.Instrs {
+			sel, ok := in.(*ssa.Select)
+			if !ok {
+				continue
+			}
+			hasPkg := false
+			for _, st := range sel.States {
+				if f, _ := core.FieldLoad(st.Chan); f == fPkgCh && st.Dir == types.RecvOnly {
+					hasPkg = true
+				}
+			}
+			if sel.Blocking {
+				blocking = sel
+			} else if hasPkg {
+				fast = sel
+			}
+		}
+	}
+	key := "NextPackage: queued packages before queued errors"
+	if blocking == nil || fast == nil {
+		r.Bad("R14.6", key, fn.Pos(), "NextPackage has no non-blocking receive from packageCh ahead of its blocking select: when a package and a transport error are both queued, select picks at random and the error can overtake packages from completely received packets")
+		return
+	}
+	ok := true
+	core.EnumPaths(fn.Blocks[0], func(b *ssa.BasicBlock) bool { return b == blocking.Block() }, nil, 500, func(pa core.Path, ended bool) {
+		if !ended {
+			return
+		}
+		through := false
+		for _, b := range pa.Blocks {
+			if b == fast.Block() {
+				through = true
+			}
+		}
+		if !through {
+			ok = false
+		}
+	})
+	r.Check(ok, "R14.6", key, blocking.Pos(), "every path to the blocking select passes the non-blocking packageCh receive", "the blocking select can be reached without first trying packageCh (the fast path is conditional): a queued transport error can overtake packages that were already parsed from completely received packets")
+}
+
+// c14ReaderExits: every return of Conn.ReadFrom is dominated by the
+// connection context being done or by errors.Is(err, io.EOF) after the
+// packet was delivered. A reader that gives up on other errors stops
+// refilling Conn.errCh: only the first waiter learns that the transport died.
+func c14ReaderExits(r *core.Run) {
+	p := r.Prog
+	fn := p.Func("tds", "Conn", "ReadFrom")
+	fCtx := p.Field("tds", "Conn", "ctx")
+	n := 0
+	for _, ret := range core.Returns(fn) {
+		n++
+		okExit := false
+		for _, g := range core.GuardsAt(ret) {
+			if g.Pol && condHasContextErr(g.Cond) {
+				bo := g.Cond.(*ssa.BinOp)
+				if rc, ok := core.IsContextErrCall(bo.X); ok {
+					if f, _ := core.FieldLoad(rc); f == fCtx {
+						okExit = true
+					}
+				}
+			}
+			if c, ok := g.Cond.(*ssa.Call); ok && g.Pol && core.IsPkgFunc(c, "errors", "Is") {
+				if u, ok := c.Call.Args[1].(*ssa.UnOp); ok {
+					if gl, ok := u.X.(*ssa.Global); ok && gl.Pkg.Pkg.Path() == "io" && gl.Name() == "EOF" {
+						okExit = true
+					}
+				}
+			}
+		}
+		key := "Conn.ReadFrom: return"
+		r.Check(okExit, "R14.7", key, ret.Pos(), "under ctx.Err() != nil or errors.Is(err, io.EOF)", "the reader goroutine returns on a path that is neither 'connection context done' nor 'EOF after a delivered packet': after that nothing refills Conn.errCh, so only one waiter is told that the transport failed and every other receive blocks until its own context ends")
+	}
+	if n == 0 {
+		r.Unknown("R14.7", "Conn.ReadFrom: return", fn.Pos(), "no returns")
+	}
 }
